@@ -100,6 +100,10 @@ pub enum Op {
     /// get / contains_key of one of the keys inserted by earlier bursts
     GetFresh { sel: u16 },
     ContainsFresh { sel: u16 },
+    /// concurrent cache: open an iterator, take `after` items, call invalidate_all(), take the rest
+    IterInvalidateAll { after: u8 },
+    /// `format!("{:?}", cache)`: the entries it lists are an iteration
+    DebugFmt,
     /// invalidate the `n` most recently burst-inserted keys in a row, without sync
     BurstInvalidate { n: u32 },
     /// open an iterator, take `after` items, advance the clock by `ns`, take the rest
